@@ -82,7 +82,11 @@ class MemAccessor:
         self.d[(key, tuple(chunk_coords))] = bytes(buf)
 
     def fetch_file(self, p):
-        return self.d[p]
+        from neuroglancer_scripts.accessor import DataAccessError
+        try:
+            return self.d[p]
+        except KeyError:
+            raise DataAccessError("missing") from None
 
     def store_file(self, p, buf, mime_type=None, overwrite=False):
         from neuroglancer_scripts.accessor import DataAccessError
@@ -329,7 +333,11 @@ def run(R):
                 c2 = tuple(t for s_, k_ in zip(sc2["size"], sc2["chunk_sizes"][0]) for t in (0, min(k_, s_)))
                 a2 = np.arange(nch * (c2[5] - c2[4]) * (c2[3] - c2[2]) * (c2[1] - c2[0]), dtype="float64")
                 a2 = (a2 * 0.5 + 0.5).astype(info2["data_type"]).reshape(nch, c2[5] - c2[4], c2[3] - c2[2], c2[1] - c2[0])
-                w2 = outcome_of(lambda: pio_b.write_chunk(a2, sc2["key"], c2))
+                # (an overwriting initialisation with another encoding may change the stored form of a chunk,
+                #  plain <-> .gz; a chunk of the OLD dataset at this position is then a leftover of another
+                #  dataset generation, which C03 does not speak about: only positions never written before)
+                fresh_pos = (sc2["key"], c2) not in last
+                w2 = outcome_of(lambda: pio_b.write_chunk(a2, sc2["key"], c2)) if fresh_pos else ["skipped"]
                 if w2[0] == "ok":
                     last.pop((sc2["key"], c2), None)
                     r2 = outcome_of(lambda: precomputed_io.get_IO_for_existing_dataset(reopen()).read_chunk(sc2["key"], c2))
@@ -357,9 +365,180 @@ def run(R):
                 "ops": [[o[0], o[2], list(o[3]), o[4]] for o in ops]}
         R.case(case, nontrivial=len(positions) >= 2)
         R.count(f"seq:{enc}:{kind}")
+    _handles_stream(R, rng, quick)
     R.extra["jpeg_max_abs_error_observed"] = int(jpeg_err)
     R.notes.append("JPEG: only shape/dtype and a loose error bound (<= 64 grey levels on smooth data) are "
                    "checked; the bound is a test, not a theorem (libjpeg is outside the model)")
+
+
+def _handles_stream(R, rng, quick):
+    """Several PrecomputedIO objects on one dataset (coq/theories/Pio/PioHandles.v): initialisations
+    (refused when an info exists, unless overwriting), objects opened from the stored info, writes and
+    reads through any of them.  Model: per-operation outcomes, the stored info and the number of live
+    objects.  Oracle: a read through ANY object returns the last array written through ANY object."""
+    from neuroglancer_scripts import precomputed_io, accessor
+    for si in range(80 if quick else 2500):
+        dt = rng.choice(["uint8", "uint16", "uint32", "uint64", "float32"])
+        nch = rng.choice([1, 2, 3])
+        size = [rng.randrange(1, 10) for _ in range(3)]
+        cs = [rng.choice([1, 2, 4]) for _ in range(3)]
+
+        def mk(dtype, enc, nc):
+            sc = {"key": "s0", "size": size, "chunk_sizes": [cs], "encoding": enc, "resolution": [1, 1, 1],
+                  "voxel_offset": [0, 0, 0]}
+            if enc == "compressed_segmentation":
+                sc["compressed_segmentation_block_size"] = [2, 2, 2]
+            return {"type": "image", "data_type": dtype, "num_channels": nc, "scales": [sc]}
+        good = mk(dt, "compressed_segmentation" if dt in ("uint32", "uint64") and rng.random() < 0.4 else "raw", nch)
+        other_dt = rng.choice([x for x in DT if x != dt])
+        cands = [good, mk(other_dt, "raw", nch), mk(dt, "jpeg" if dt != "uint8" or nch == 2 else "png", nch),
+                 mk("uint8", "compressed_segmentation", nch), mk(dt, "raw", 0)]
+        infos = [good] + rng.sample(cands[1:], 2)
+
+        def wire_info(idx, inf):
+            sc = inf["scales"][0]
+            enc = ENC.index(sc["encoding"]) if sc["encoding"] in ENC else 9
+            blk = sc.get("compressed_segmentation_block_size") or Atom("none")
+            return [idx, DT.index(inf["data_type"]), inf["num_channels"], [[sc_val(sc), enc, blk]]]
+        kind = rng.choice(["mem", "file", "file-flat"])
+        d = os.path.join(R.tmp, f"hd{si}")
+        if kind == "mem":
+            mem = MemAccessor()
+            get_acc = lambda: mem   # noqa: E731
+        else:
+            opts = {"flat": kind == "file-flat", "gzip": rng.random() < 0.5}
+            get_acc = lambda: accessor.get_accessor_for_url(d, opts)   # noqa: E731
+        # ---- history
+        n_ops = rng.randrange(3, 14)
+        first = rng.choice([0, 0, 0, 0, 1, 2, "open"])
+        plan = [("open",) if first == "open" else ("new", first, False)]
+        stored = None            # index of the info the dataset carries (as the harness expects it)
+        handles = []             # index of the info of each live object
+        wire, impl_out, case_ops = [], [], []
+        objs, arrays, last = [], [], {}
+        valid_info = [precomputed_ok(x) for x in infos]
+        ended = False
+        for step in range(n_ops):
+            if step < len(plan):
+                op = plan[step]
+            else:
+                r = rng.random()
+                if r < 0.15:
+                    op = ("new", rng.randrange(len(infos)), False)
+                elif r < 0.22 and stored is not None:
+                    op = ("new", stored, True)                        # overwrite with the SAME description
+                elif r < 0.4:
+                    op = ("open",)
+                elif r < 0.75 and handles:
+                    op = ("w", rng.randrange(len(handles)))
+                elif handles:
+                    op = ("r", rng.randrange(len(handles)))
+                else:
+                    op = ("open",)
+            if step == n_ops - 1 and stored is not None and rng.random() < 0.15:
+                op = ("new", rng.randrange(len(infos)), True)         # overwriting with another info: last op only
+                ended = True
+            if op[0] == "new":
+                got = outcome_of(lambda: precomputed_io.get_IO_for_new_dataset(infos[op[1]], get_acc(),
+                                                                                 overwrite_info=op[2]))
+                wire.append([Atom("new"), op[1], op[2]])
+                if got[0] == "ok":
+                    objs.append(got[1])
+                    handles.append(op[1])
+                    impl_out.append(["ok", "stored"])
+                else:
+                    impl_out.append(got)
+                if stored is None or op[2]:
+                    stored = op[1]
+            elif op[0] == "open":
+                got = outcome_of(lambda: precomputed_io.get_IO_for_existing_dataset(get_acc()))
+                wire.append([Atom("open")])
+                if got[0] == "ok":
+                    objs.append(got[1])
+                    handles.append(stored)
+                    impl_out.append(["ok", "stored"])
+                else:
+                    impl_out.append(got)
+            else:
+                h = op[1]
+                inf = infos[handles[h]]
+                sc = inf["scales"][0]
+                c, ckind = mutate_coords(rng, sc["size"], sc["chunk_sizes"][0])
+                if ckind != "valid" and rng.random() < 0.7:
+                    c, ckind = mutate_coords(rng, sc["size"], sc["chunk_sizes"][0])
+                if op[0] == "r" and last and rng.random() < 0.7:
+                    c = rng.choice(sorted(last))
+                if op[0] == "w":
+                    shape = (inf["num_channels"], max(c[5] - c[4], 1), max(c[3] - c[2], 1), max(c[1] - c[0], 1))
+                    n_el = int(np.prod(shape))
+                    if inf["data_type"] == "float32":
+                        arr = np.array([rng.uniform(-9, 9) for _ in range(n_el)], dtype="float32").reshape(shape)
+                    else:
+                        hi = int(np.iinfo(inf["data_type"]).max)
+                        arr = np.array([rng.choice([0, 1, hi, rng.randrange(hi)]) for _ in range(n_el)],
+                                       dtype=inf["data_type"]).reshape(shape)
+                    arrays.append(arr)
+                    tok = len(arrays) - 1
+                    got = outcome_of(lambda: objs[h].write_chunk(arr, "s0", c))
+                    wire.append([Atom("w"), h, tok, b"s0", list(c)])
+                    if got[0] == "ok":
+                        last[c] = tok
+                        impl_out.append(["ok", "stored"])
+                    else:
+                        impl_out.append(got)
+                else:
+                    got = outcome_of(lambda: objs[h].read_chunk("s0", c))
+                    wire.append([Atom("r"), h, b"s0", list(c)])
+                    if got[0] == "ok":
+                        tok = last.get(c)
+                        if tok is None or got[1].shape != arrays[tok].shape or \
+                                got[1].dtype.newbyteorder("=") != arrays[tok].dtype or \
+                                got[1].tobytes() != arrays[tok].tobytes():
+                            R.violation("a read through one PrecomputedIO object does not return the last array "
+                                        "written (through any object) at that position",
+                                        {"infos": infos, "ops": case_ops + [list(op)], "coords": list(c)}, {})
+                            impl_out.append(["ok", -1])
+                        else:
+                            impl_out.append(["ok", tok])
+                    else:
+                        impl_out.append(got)
+            case_ops.append([str(x) for x in op])
+            if ended:
+                break
+        rep = R.model.call("pio_handles", [[wire_info(i, x) for i, x in enumerate(infos)], wire])
+        m_outs = [model_outcome(x) for x in rep[0]]
+        m_outs = [["ok", "stored"] if (m[0] == "ok" and isinstance(m[1], Atom)) else m for m in m_outs]
+        case = {"handles_stream": True, "accessor": kind, "infos": infos, "ops": case_ops}
+        R.case(case, nontrivial=len(handles) >= 2 and len(last) >= 1)
+        R.count(f"handles:objects={min(len(handles), 3)}:info-valid={valid_info[0]}")
+        for o, got in zip(case_ops, impl_out):
+            R.count(f"handles:{o[0]}:{got[0] if got[0] != 'Crash' else got[1]}")
+        if impl_out != m_outs:
+            k = next((j for j, (a, b_) in enumerate(zip(impl_out, m_outs)) if a != b_), -1)
+            R.disagree("multi-handle history vs PioHandles model", case,
+                       {"op": case_ops[k] if k >= 0 else "?", "impl": impl_out[k] if k >= 0 else impl_out},
+                       {"model": m_outs[k] if k >= 0 else m_outs})
+        # stored info and number of live objects
+        try:
+            stored_now = json.loads(get_acc().fetch_file("info"))
+        except Exception:  # noqa: BLE001
+            stored_now = None
+        m_stored = rep[1]
+        want_stored = None if isinstance(m_stored, Atom) else infos[int(m_stored)]
+        if stored_now != want_stored or int(rep[2]) != len(objs):
+            R.disagree("stored info / number of live objects vs PioHandles model", case,
+                       {"stored": stored_now, "objects": len(objs)},
+                       {"stored": want_stored, "objects": int(rep[2])})
+
+
+def precomputed_ok(info):
+    from neuroglancer_scripts import chunk_encoding
+    try:
+        for sc in info["scales"]:
+            chunk_encoding.get_encoder(info, sc)
+        return True
+    except Exception:  # noqa: BLE001
+        return False
 
 
 def _listing(acc, d):
